@@ -20,7 +20,7 @@ META = {
              'and running-order trees after every add; sharing is reported as a hazard count, never as a violation. '
              'Signature = (kind, observation a-d, number and kinds of follow-up edits, outcome).'),
     'workers': {'quick': 12, 'thorough': 16},
-    'watchdog': {'quick': 300, 'thorough': 1800},
+    'watchdog': {'quick': 600, 'thorough': 3600},
 }
 
 
